@@ -381,7 +381,7 @@ pub fn judge(c: &Case) -> Result<(), (String, String)> {
 }
 
 fn names() -> BoxedStrategy<String> {
-    prop_oneof![4 => "[a-z][a-z0-9-]{0,10}", 2 => "[A-Z][a-zA-Z-]{0,8}", 2 => Just("content-type".to_string()), 1 => Just("Content-Type".to_string()), 1 => Just("set-cookie".to_string()), 1 => "[a-z]{1,4} [a-z]{1,4}", 1 => Just(String::new()), 1 => "\\PC{1,6}"].boxed()
+    prop_oneof![1 => Just("content-length".to_string()), 1 => Just("Content-Length".to_string()), 1 => Just("transfer-encoding".to_string()), 1 => Just("content-encoding".to_string()), 4 => "[a-z][a-z0-9-]{0,10}", 2 => "[A-Z][a-zA-Z-]{0,8}", 2 => Just("content-type".to_string()), 1 => Just("Content-Type".to_string()), 1 => Just("set-cookie".to_string()), 1 => "[a-z]{1,4} [a-z]{1,4}", 1 => Just(String::new()), 1 => "\\PC{1,6}"].boxed()
 }
 fn content_types() -> BoxedStrategy<String> {
     let labels = vec!["utf-8", "UTF-8", "utf8", "euc-kr", "windows-1252", "iso-8859-1", "utf-16le", "utf-16be", "utf-16", "shift_jis", "gbk", "big5", "iso-2022-jp", "x-user-defined", "replacement", "bogus", ""];
@@ -419,7 +419,18 @@ fn statuses() -> BoxedStrategy<u16> {
 }
 
 pub fn strategy() -> BoxedStrategy<Case> {
-    let header = names().prop_flat_map(|n| if n.eq_ignore_ascii_case("content-type") { content_types().prop_map(move |v| (n.clone(), v)).boxed() } else { values().prop_map(move |v| (n.clone(), v)).boxed() });
+    // framing headers with values that contradict the body the shell actually returns (a shell that
+    // decompresses transparently keeps the original headers): the body is what the shell returned
+    let framing = prop_oneof![Just("0".to_string()), Just("1".to_string()), Just("3".to_string()), Just(" 2 ".to_string()), Just("999999".to_string()), Just("chunked".to_string()), Just("gzip".to_string()), Just("x".to_string())];
+    let header = names().prop_flat_map(move |n| {
+        if n.eq_ignore_ascii_case("content-type") {
+            content_types().prop_map(move |v| (n.clone(), v)).boxed()
+        } else if ["content-length", "transfer-encoding", "content-encoding"].iter().any(|f| n.eq_ignore_ascii_case(f)) {
+            framing.clone().prop_map(move |v| (n.clone(), v)).boxed()
+        } else {
+            values().prop_map(move |v| (n.clone(), v)).boxed()
+        }
+    });
     let reply = prop_oneof![
         12 => (statuses(), prop::collection::vec(header, 0..4), bodies()).prop_map(|(status, headers, body)| Reply::Response { status, headers, body }),
         1 => values().prop_map(Reply::Url),
